@@ -21,7 +21,7 @@ func init() {
 			"D4 what is written is what is reported — doStrategy/Update pass to writeManifestPatches the very patch list they return in Result.Patches, the manifest they parsed from the same path, and return its error; writeManifestPatches hands all of it to the ReadWriter; common.ComputePatches builds every patch with ConstructPatches(original, strategy result); " +
 			"D5 unactionable — computeVulnsResult marks a vulnerability unactionable exactly when its ID is absent from the set of all Fixed IDs of allPatches (built without omissions), and doStrategy gives it the same allPatches that choosePatches selects from; " +
 			"D6 the package.json writer applies every update or fails, and changes nothing else (rules shared with C13). " +
-			"Added in round 2: D1 additionally: every vulnerability filter is MatchVuln(*opts, v) on the caller's options object and the explicit-list expansion is stored into that object; the pom.xml writer marks a section as handled under the origin whose patches it applied (C13 D6). Added in round 3: D7 MatchVuln equals the option semantics (decision table); D8 manifest Clone reads every field and iterates only over the receiver's data; D9/D10 pom.xml identity and parent-origin agreement (shared with C13). NOT decided: that resolving the written manifest again yields the reported vulnerability sets (resolver, matcher and registry behaviour; alias/duplicate requirement semantics inside PatchRequirement); the pom.xml writer's application of updates (XML rewriting by position — see C13 for its decided clauses).",
+			"Added in round 2: D1 additionally: every vulnerability filter is MatchVuln(*opts, v) on the caller's options object and the explicit-list expansion is stored into that object; the pom.xml writer marks a section as handled under the origin whose patches it applied (C13 D6). Added in round 3: D7 MatchVuln equals the option semantics (decision table); D8 manifest Clone reads every field and iterates only over the receiver's data; D9/D10 pom.xml identity and parent-origin agreement (shared with C13). Added in round 7: D13 OriginalDependency answers with the first declaration that has a version (returned from inside the loop). NOT decided: that resolving the written manifest again yields the reported vulnerability sets (resolver, matcher and registry behaviour; alias/duplicate requirement semantics inside PatchRequirement); the pom.xml writer's application of updates (XML rewriting by position — see C13 for its decided clauses).",
 		Run: runC12,
 		Controls: []Mutant{
 			{Name: "diff-against-unfiltered", File: "guidedremediation/internal/remediation/remediation.go", Old: "	for _, v := range oldRes.Vulns {\n		fixedVulns[v.OSV.ID] = &v", New: "	for _, v := range oldRes.UnfilteredVulns {\n		fixedVulns[v.OSV.ID] = &v", Rule: "D1-one-view", Site: "ConstructPatches"},
@@ -108,6 +108,8 @@ func runC12(p *Prog, r *Report) {
 	analysisFollowsManifest(p, r, "D11-analysis-current")
 	r.Rule("D12-requirement-identity", "old and new requirements are paired by RequirementKey, never by package alone")
 	requirementsPairedByKey(p, r, "D12-requirement-identity")
+	r.Rule("D13-first-declaration", "pom.xml writer edits the declaration the resolver reads: the first one with a version")
+	firstMatchWins(p, r, "D13-first-declaration", p.Func("guidedremediation/internal/manifest/maven", "OriginalDependency"), 1, "OriginalDependency no longer answers with the first declaration of the dependency that carries a version: for a dependency declared twice (in <dependencies> and in <dependencyManagement>, in the project and in a profile) the writer edits a later declaration while Maven — and the next analysis of the written file — reads the first, so a patch reported as fixing a vulnerability leaves the vulnerable version in place")
 }
 
 const (
